@@ -848,3 +848,93 @@ func runC11Shapes(c *CaseCtx, r *rand.Rand) (res CaseResult) {
 	res.Sample = det
 	return res
 }
+
+type idErr struct{ id int64 }
+
+func (e *idErr) Error() string { return fmt.Sprintf("failure for input #%d", e.id) }
+
+// runC12FailingRedefined: many goroutines make FAILING calls of one shared
+// redefined function at the same time; the failure of each call carries the
+// id of that call's own input. Every call must return its own failure.
+func runC12FailingRedefined(c *CaseCtx, r *rand.Rand) (res CaseResult) {
+	res.NonTrivial = true
+	withErrResult := r.Intn(2) == 0
+	res.Key = fmt.Sprintf("failing-calls-of-a-shared-redefined-function errresult=%v", withErrResult)
+	res.obs("family.failing-redefined", 1)
+	det := map[string]interface{}{"case": res.Key}
+	var target interface{} = func(x T1) T2 { return T2{ID: x.ID} }
+	if withErrResult {
+		target = func(x T1) (T2, error) { return T2{ID: x.ID}, nil }
+	}
+	f, err := am.NewFunc(target)
+	if err != nil {
+		res.Skip = "newfunc"
+		return res
+	}
+	conv := func(x T0) (T1, error) {
+		if x.ID%2 == 1 {
+			return T1{}, &idErr{x.ID}
+		}
+		return T1{ID: x.ID}, nil
+	}
+	rf, err := f.Redefine(am.Converter(conv), am.FilterInput(am.FilterType(types[0])))
+	if err != nil || rf == nil {
+		res.violate("C08", "refused-although-permitted", "Redefine through a converter failed: "+errStr(err), det)
+		return res
+	}
+	old := runtime.GOMAXPROCS(16)
+	defer runtime.GOMAXPROCS(old)
+	G, per := 8+r.Intn(9), tierReps(c.Tier, 150, 400)
+	var wg sync.WaitGroup
+	var mu sync.Mutex
+	bad := 0
+	first := ""
+	start := make(chan struct{})
+	for g := 0; g < G; g++ {
+		wg.Add(1)
+		go func(g int) {
+			defer wg.Done()
+			defer func() {
+				if p := recover(); p != nil {
+					mu.Lock()
+					bad++
+					if first == "" {
+						first = fmt.Sprintf("panic: %v", p)
+					}
+					mu.Unlock()
+				}
+			}()
+			<-start
+			for k := 0; k < per; k++ {
+				id := int64(g*100000 + k + 1)
+				rr := rf.Call(am.Typed(T0{ID: id}))
+				msg := ""
+				if id%2 == 1 {
+					var ie *idErr
+					if rr.Err() == nil || !errors.As(rr.Err(), &ie) || ie.id != id {
+						msg = fmt.Sprintf("the call with input #%d failed inside; it returned %v", id, rr.Err())
+					}
+				} else if rr.Err() != nil || rr.Len() != 1 || rr.Out(0) != (T2{ID: id}) {
+					msg = fmt.Sprintf("the call with input #%d returned (%v, %v)", id, rr.Err(), rr.Len())
+				}
+				if msg != "" {
+					mu.Lock()
+					bad++
+					if first == "" {
+						first = msg
+					}
+					mu.Unlock()
+				}
+			}
+		}(g)
+	}
+	close(start)
+	wg.Wait()
+	res.Evals += G * per
+	res.obs("concurrent_operations", int64(G*per))
+	if bad > 0 {
+		res.violate("C12", "concurrent-outcome-differs", fmt.Sprintf("%d of %d concurrent calls of the shared redefined function returned an outcome no sequential execution of that call returns; first: %s", bad, G*per, first), det)
+	}
+	res.Sample = det
+	return res
+}
